@@ -37,50 +37,82 @@ func emitOptionsProbes(tw *traceWriter, tid int, t tableCase, routers []string, 
 	sort.Strings(paths)
 	for _, router := range routers {
 		var cell *obsCell
+		dynamicTables = true
 		plain, ap1 := buildContainer(t, router, registrationOrder(t, nil, true), &cell)
 		filtered, ap2 := buildContainer(t, router, registrationOrder(t, nil, true), &cell)
+		dynamicTables = false
 		if ap1 != "" || ap2 != "" {
 			continue
 		}
 		filtered.Filter(filtered.OPTIONSFilter)
-		for _, path := range paths {
-			probes := [][]interface{}{}
-			fprobes := [][]interface{}{}
-			allow405 := [][]interface{}{}
-			var opt map[string]interface{}
-			for _, m := range universe {
-				rq := reqSpec{M: m, Path: path}
-				hr, err := rq.httpRequest(false)
-				if err != nil {
+		for pass := 0; pass < 2; pass++ {
+			if pass == 1 {
+				// a route is added to an already registered WebService: the first route's path also serves BREW
+				if len(t.Services) == 0 || len(t.Services[0].Routes) == 0 {
+					break
+				}
+				p0 := t.Services[0].Routes[0].P
+				for _, cont := range []*restful.Container{plain, filtered} {
+					for _, ws := range cont.RegisteredWebServices() {
+						if ws.RootPath() == t.Services[0].Root || (t.Services[0].Root == "" && ws.RootPath() == "/") {
+							ws.Route(ws.Method("BREW").Path(p0).To(func(req *restful.Request, resp *restful.Response) {
+								oc := cellFor(req.Request)
+								oc.mu.Lock()
+								oc.ran = append(oc.ran, hit{ws: 1, rt: 99, params: map[string]string{}})
+								oc.mu.Unlock()
+							}))
+						}
+					}
+				}
+				universe = append(universe, "BREW")
+			}
+			for _, path := range paths {
+				probes := [][]interface{}{}
+				fprobes := [][]interface{}{}
+				allow405 := [][]interface{}{}
+				var opt map[string]interface{}
+				for _, m := range universe {
+					rq := reqSpec{M: m, Path: path}
+					hr, err := rq.httpRequest(false)
+					if err != nil {
+						continue
+					}
+					o := observe(plain, "D", hr, &cell)
+					probes = append(probes, []interface{}{m, probeCode(o), o.Ran})
+					if o.K == "err" && o.St == 405 {
+						allow405 = append(allow405, []interface{}{m, o.Allow})
+						// the same rejected request carrying an entity: the Allow header must not depend on it
+						rb := reqSpec{M: m, Path: path, CT: "text/x-odd", Clen: 3, Clh: "3"}
+						if hb, err := rb.httpRequest(false); err == nil {
+							ob := observe(plain, "D", hb, &cell)
+							if ob.K == "err" && ob.St == 405 {
+								allow405 = append(allow405, []interface{}{m + "+body", ob.Allow})
+							}
+						}
+					}
+					hr2, _ := rq.httpRequest(false)
+					cell = &obsCell{}
+					rec := newRecorderObserve(filtered, hr2, &cell)
+					if m == "OPTIONS" {
+						opt = map[string]interface{}{"st": rec.code, "allow": splitList(rec.hdr.Get("Allow")),
+							"acam": splitList(rec.hdr.Get("Access-Control-Allow-Methods")), "ran": rec.ran, "panic": rec.panicked}
+					} else {
+						fprobes = append(fprobes, []interface{}{m, rec.codeOrRoute(), rec.ran})
+					}
+				}
+				if opt == nil {
 					continue
 				}
-				o := observe(plain, "D", hr, &cell)
-				probes = append(probes, []interface{}{m, probeCode(o), o.Ran})
-				if o.K == "err" && o.St == 405 {
-					allow405 = append(allow405, []interface{}{m, o.Allow})
+				// probes without the OPTIONS method, comparable with fprobes
+				nprobes := [][]interface{}{}
+				for _, p := range probes {
+					if p[0].(string) != "OPTIONS" {
+						nprobes = append(nprobes, p)
+					}
 				}
-				hr2, _ := rq.httpRequest(false)
-				cell = &obsCell{}
-				rec := newRecorderObserve(filtered, hr2, &cell)
-				if m == "OPTIONS" {
-					opt = map[string]interface{}{"st": rec.code, "allow": splitList(rec.hdr.Get("Allow")),
-						"acam": splitList(rec.hdr.Get("Access-Control-Allow-Methods")), "ran": rec.ran, "panic": rec.panicked}
-				} else {
-					fprobes = append(fprobes, []interface{}{m, rec.codeOrRoute(), rec.ran})
-				}
+				tw.emit(map[string]interface{}{"e": "probe", "tid": tid, "router": router, "path": path, "pass": pass,
+					"probes": probes, "nprobes": nprobes, "fprobes": fprobes, "allow405": allow405, "opt": opt})
 			}
-			if opt == nil {
-				continue
-			}
-			// probes without the OPTIONS method, comparable with fprobes
-			nprobes := [][]interface{}{}
-			for _, p := range probes {
-				if p[0].(string) != "OPTIONS" {
-					nprobes = append(nprobes, p)
-				}
-			}
-			tw.emit(map[string]interface{}{"e": "probe", "tid": tid, "router": router, "path": path,
-				"probes": probes, "nprobes": nprobes, "fprobes": fprobes, "allow405": allow405, "opt": opt})
 		}
 	}
 }
